@@ -871,7 +871,8 @@ def run_c17(ck, ctx):
 CHECKS = {
     'C17': dict(modules=['FastPasta.Props.C17'], run=run_c17, needs_harness=False,
                 theorems=['FastPasta.C17.no_deadlock', 'FastPasta.C17.step_decreases', 'FastPasta.C17.env_measure', 'FastPasta.C17.terminates_within',
-                          'FastPasta.C17.orderly_stop', 'FastPasta.C17.step_inv', 'FastPasta.C17.env_inv', 'FastPasta.C17.exec_inv', 'FastPasta.C17.writer_whole_packets']),
+                          'FastPasta.C17.orderly_stop', 'FastPasta.C17.step_inv', 'FastPasta.C17.env_inv', 'FastPasta.C17.exec_inv', 'FastPasta.C17.writer_whole_packets',
+                          'FastPasta.C17.leaked_receiver_deadlocks']),
     'C04': dict(modules=['FastPasta.Props.C04'], run=run_c04, needs_harness=False, corr='panic_model',
                 theorems=['FastPasta.C04.no_panic_nonstave', 'FastPasta.C04.no_panic_stave_valid_layers', 'FastPasta.C04.runValidators_safe', 'FastPasta.C04.no_panic_all_validators_nonstave', 'FastPasta.C04.checkWord_safe', 'FastPasta.C04.checkWords_safe',
                           'FastPasta.C04.payloadChecks_safe', 'FastPasta.C04.linkRun_safe', 'FastPasta.C04.processFrame_err', 'FastPasta.C04.preData_err',
